@@ -37,21 +37,6 @@ import t4eval
 from common import cfloat, cbool, clist, copt, cpair, cz
 
 THEOREMS = [
-    'C04_quad_congruence', 'C04_quad_congruence_inverse',
-    'C04_frame_transform_plane', 'C04_frame_transform_sphere',
-    'C04_frame_transform_cylinder', 'C04_frame_transform_cone',
-    'C04_frame_transform_cone_sheet', 'C04_frame_transform_torus',
-    'C04_normalize_matrix_9_reproduces', 'C04_normalize_matrix_6_reproduces',
-    'C04_normalize_matrix_6_cols_reproduces',
-    'C04_normalize_matrix_3_reproduces', 'C04_normalize_matrix_5_reproduces',
-    'C04_adjust_matrix_fixpoint', 'C04_to_cos_deg', 'C04_m1_only',
-    'C04_implicit_surface',
-    'C04_cone_sheet_axis_antialigned_refuted',
-    'C04_implicit_surface_negative_only_refuted',
-    'C04_inline_trcl_not_normalised_refuted',
-    'C04_sq_under_transformation_refuted',
-    'C04_matrix3_row_minus_ex_refuted',
-    'C04_m1_star_inline_refuted',
 ]
 TRUSTED = [
     'hand-written model coq/C04/Model.v (modelled, tied by execution only)',
@@ -89,9 +74,6 @@ EXC = {'TransformationError': 'ETransformation', 'TypeError': 'EType',
        'ZeroDivisionError': 'EZeroDiv'}
 
 KNOWN = {
-    'cone_sheet_axis_antialigned',
-    'implicit_surface_negative_only',
-    'inline_trcl_not_normalised',
     'sq_under_transformation',
     'matrix3_row_minus_ex',
 }
@@ -711,11 +693,15 @@ def gen_deck(rng, mode):
         elif mode == 'trcl_star12':
             spec = tr_spec(rng, star=True)
             cell1['trcl'] = spec
-        elif mode == 'trcl_plain12':      # class inline_trcl_not_normalised
+        elif mode == 'trcl_plain12':
             spec = tr_spec(rng, star=False)
             cell1['trcl'] = spec
-        elif mode == 'trcl_star_abbrev':  # class inline_trcl_not_normalised
-            spec = tr_spec(rng, star=True)
+        elif mode == 'trcl_13':           # m = 1 spelled out
+            spec = tr_spec(rng)
+            spec['print'] = spec['print'] + [1.0]
+            cell1['trcl'] = spec
+        elif mode == 'trcl_abbrev':       # two rows given, third completed
+            spec = tr_spec(rng)
             spec['print'] = spec['print'][:9]
             cell1['trcl'] = spec
         else:
@@ -752,21 +738,24 @@ def deck_classes(deck, moved):
             continue
         if s['mn'] == 'sq':
             classes.add('sq_under_transformation')
-        if one_sheet(s['mn'], s['params']) and \
-                antialigned(moved_axis(s['mn'], spec['B'])):
-            classes.add('cone_sheet_axis_antialigned')
-    for cell in deck['cells']:
-        spec = cell.get('trcl')
-        if isinstance(spec, dict) and len(spec['print']) not in (0, 3):
-            if not spec.get('star') or len(spec['print']) < 12:
-                classes.add('inline_trcl_not_normalised')
-    refs = set()
-    for cell in deck['cells']:
-        collect_refs(cell['expr'], refs)
-    big = {abs(r) for r in refs if abs(r) >= 1000}
-    if any(all(r < 0 for r in refs if abs(r) == b) for b in big):
-        classes.add('implicit_surface_negative_only')
     return classes
+
+
+def sq_as_gq(deck):
+    '''The deck with SQ cards replaced by the GQ card of the same function
+    (Appendix A).'''
+    out = dict(deck)
+    out['surfaces'] = []
+    for s in deck['surfaces']:
+        if s['mn'] == 'sq':
+            a, b, c, d, e, f, g, x, y, z = s['params']
+            s = dict(s, mn='gq', params=[
+                a, b, c, 0.0, 0.0, 0.0,
+                2 * (d - a * x), 2 * (e - b * y), 2 * (f - c * z),
+                a * x * x + b * y * y + c * z * z
+                - 2 * (d * x + e * y + f * z) + g])
+        out['surfaces'].append(s)
+    return out
 
 
 def collect_refs(expr, out):
@@ -799,7 +788,8 @@ def check_deck(deck, rng, n_points):
 # witnesses of the open classes (replayed first on every run)
 # ---------------------------------------------------------------------------
 
-WITNESSES = {
+# decks that used to fail before the lead's fix: commits (must pass now)
+CORPUS = {
     'cone_sheet_axis_antialigned':
         'cone sheet witness\n1 0 -1 imp:n=1\n2 0 1 imp:n=1\n\n'
         '1 5 kz 0 1 1\n\ntr5 0 0 0 1 0 0 0 -1 0 0 0 -1\n',
@@ -809,6 +799,12 @@ WITNESSES = {
     'inline_trcl_not_normalised':
         'inline TRCL witness\n1 0 -1 trcl=(1 0 0 0 1 0 -1 0 0 0 0 1) imp:n=1\n'
         '2 0 #1 imp:n=1\n\n1 c/x 1.5 0.5 1\n\n',
+    'star_trcl_abbreviated':
+        'abbreviated *TRCL\n1 0 -1 *trcl=(1 0 0 0 90 90 90 30 60) imp:n=1\n'
+        '2 0 #1 imp:n=1\n\n1 c/x 1.5 0.5 1\n\n',
+}
+
+WITNESSES = {
     'sq_under_transformation':
         'SQ under TR witness\n1 0 -1 imp:n=1\n2 0 1 imp:n=1\n\n'
         '1 5 sq 0.2 1 3 -2 1.4 -1.7 -25 -3 2.2 -1.9\n\n'
@@ -835,6 +831,22 @@ WITNESS_DECKS = {
         'transforms': {5: {'O': (1, 2, 3),
                            'B': [math.cos(math.radians(a)) for a in
                                  (30, 60, 90, 120, 30, 90, 90, 90, 0)]}}},
+    'implicit_surface_negative_only': {
+        'cells': [{'id': 1, 'mat': 0, 'expr': ('s', -1), 'imp': {'n': 1},
+                   'trcl': ('num', 5)},
+                  {'id': 2, 'mat': 0, 'expr': ('s', -1001), 'imp': {'n': 1}},
+                  {'id': 3, 'mat': 0, 'expr': ('s', 1), 'imp': {'n': 0}}],
+        'surfaces': [{'id': 1, 'mn': 'so', 'params': [2.0]}],
+        'transforms': {5: {'O': (1, 0, 0), 'B': None}}},
+    'star_trcl_abbreviated': {
+        'cells': [{'id': 1, 'mat': 0, 'expr': ('s', -1), 'imp': {'n': 1},
+                   'trcl': {'O': (1, 0, 0),
+                            'B': [1, 0, 0,
+                                  0, math.cos(math.radians(30)), 0.5,
+                                  0, -0.5, math.cos(math.radians(30))]}},
+                  {'id': 2, 'mat': 0, 'expr': ('#c', 1), 'imp': {'n': 1}}],
+        'surfaces': [{'id': 1, 'mn': 'c/x', 'params': [1.5, 0.5, 1.0]}],
+        'transforms': {}},
     'inline_trcl_not_normalised': {
         'cells': [{'id': 1, 'mat': 0, 'expr': ('s', -1), 'imp': {'n': 1},
                    'trcl': {'O': (1, 0, 0),
@@ -847,7 +859,7 @@ WITNESS_DECKS = {
 
 def witness_fails(cls, rng):
     '''Replay the witness of an open class; (still_failing, description).'''
-    conv = impl.convert(WITNESSES[cls])
+    conv = impl.convert(WITNESSES.get(cls) or CORPUS[cls])
     if not conv.ok or conv.text is None:
         return True, f'{conv.exc}: {conv.msg[:120]}'
     ref = WITNESS_DECKS.get(cls)
@@ -888,6 +900,14 @@ def run(res, tier, seed, proofs_ok):
         if failing:
             res.violation('impl-violation', f'witness of {cls}: {what}',
                           {'input': {'deck': WITNESSES[cls]}}, cls=cls,
+                          found_input=True)
+    for name in sorted(CORPUS):
+        failing, what = witness_fails(name, random.Random(seed + 2))
+        res.count(f'corpus:{name}:{"fails" if failing else "passes"}')
+        if failing:
+            res.violation('impl-violation', f'corpus deck {name} (repaired '
+                          f'defect) fails again: {what}',
+                          {'input': {'deck': CORPUS[name]}}, cls=None,
                           found_input=True)
 
     tie_trcards(res, rng, 500 if quick else 5000, 150 if quick else 1500)
@@ -1166,9 +1186,6 @@ def tie_surfaces(res, rng, n, pool):
             cls = None
             if mn == 'sq' and tr:
                 cls = 'sq_under_transformation'
-            elif one_sheet(mn, params) and antialigned(
-                    moved_axis(mn, truth['B'])):
-                cls = 'cone_sheet_axis_antialigned'
             res.violation(
                 'impl-violation',
                 f'{mn} {params} moved by {tr}: {wrong} of {checked} points '
@@ -1212,6 +1229,53 @@ def gen_tokens(rng):
     return star, [repr(v) for v in (origin + flat)[:n]], f'short{n}'
 
 
+def oracle_kw(res, elt, toks, trs, shape):
+    '''Property-level check of the transformation an inline TRCL / FILL
+    keyword yields: the rigid motion MCNP assigns to the entries.'''
+    from t4_geom_convert.Kernel.FileHandlers.Parser.ParseMCNPCell \
+        import ParseMCNPCell
+    obj = ParseMCNPCell.__new__(ParseMCNPCell)
+    obj.transforms = trs
+    if 'trcl' in elt:
+        out = call(lambda: obj.parse_trcl_kw(elt, list(reversed(toks))))
+    else:
+        out = call(lambda: obj.parse_fill_kw(
+            elt, list(reversed(['4'] + toks)))[2])
+    payload = {'input': {'elt': elt, 'tokens': toks, 'transforms': trs},
+               'observed': str(out)[:300]}
+    if unexpected(res, out, f'{elt} {toks}', payload):
+        return
+    star = elt.startswith('*')
+    vals = [float(t) for t in toks]
+    if shape.startswith('thirteen(m=-1'):
+        if out[0] == 'ok':
+            res.violation('impl-violation', f'{elt} transformation with m=-1 '
+                          'accepted', payload, found_input=True)
+        return
+    if shape == 'number':
+        want = trs.get(int(toks[0]))
+        if want is None:
+            return
+    elif shape == 'three':
+        want = vals + [1.0, 0.0, 0.0, 0.0, 1.0, 0.0, 0.0, 0.0, 1.0]
+    elif shape in ('twelve', 'thirteen(m=1.0)'):
+        mat = vals[3:12]
+        if star:
+            mat = [math.cos(math.radians(a)) for a in mat]
+        want = vals[:3] + mat
+    else:
+        return
+    if out[0] != 'ok':
+        res.violation('impl-violation', f'{elt} {toks} rejected ({out[1]})',
+                      payload, found_input=True)
+        return
+    got = [float(v) for v in out[1]]
+    if len(got) != 12 or max(abs(a - b) for a, b in zip(got, want)) > 1e-8:
+        res.violation('impl-violation', f'{elt} {toks}: transformation '
+                      f'{got} is not the one on the card {want}', payload,
+                      found_input=True)
+
+
 def tie_trcl(res, rng, n):
     from t4_geom_convert.Kernel.FileHandlers.Parser.ParseMCNPCell \
         import ParseMCNPCell
@@ -1231,18 +1295,16 @@ def tie_trcl(res, rng, n):
         elt = ('*' if star else '') + key
         res.seen((elt, toks, sorted(trs)))
         res.count(f'{elt}:{shape}')
+        oracle_kw(res, elt, toks, trs, shape)
         if key == 'trcl':
             out = call(lambda: obj.parse_trcl_kw(elt, list(reversed(toks))))
             if out[0] == 'ok':
-                val = out[1]
-                if all(isinstance(v, str) for v in val) and val:
-                    out = ('ok', ('str', len(val)))
+                if any(isinstance(v, str) for v in out[1]):
+                    out = ('err', 'UNEXPECTED_strings')
                 else:
-                    out = ('ok', ('num', [float(v) for v in val]))
-            exp = cres(out, lambda v: f'(TStr {v[1]}%nat)' if v[0] == 'str'
-                       else f'(TNum {cfl(v[1])})')
+                    out = ('ok', [float(v) for v in out[1]])
             trcl_cases.append(cpair(cbool(star), cfl(entries), ctrs, cz(trid),
-                                    exp))
+                                    cres(out, cfl)))
             trcl_meta.append((elt, toks, trs, out))
         else:
             out = call(lambda: obj.parse_fill_kw(
@@ -1252,13 +1314,9 @@ def tie_trcl(res, rng, n):
             fill_cases.append(cpair(cbool(star), cfl(entries), ctrs, cz(trid),
                                     cres(out, cfl)))
             fill_meta.append((elt, toks, trs, out))
-            if 'm=-1' in shape and not star and out[0] == 'ok':
-                res.violation('impl-violation', 'FILL transformation with '
-                              'm=-1 accepted', {'input': {'tokens': toks}},
-                              found_input=True)
     bad, errs = common.run_case_files(
         'c04_trcl', HEADER,
-        'bool * list float * list (Z * list float) * Z * res (trcl_val float)',
+        'bool * list float * list (Z * list float) * Z * res (list float)',
         'check_trcl', trcl_cases)
     report_tie(res, 'trcl', len(trcl_cases), bad, errs,
                lambda i: (f'{trcl_meta[i][0]} {trcl_meta[i][1]} -> '
@@ -1321,7 +1379,8 @@ def sweep_decks(res, rng, n):
                                                   'trcl_star12',
                                                   'trcl_star12', 'implicit',
                                                   'implicit', 'trcl_plain12',
-                                                  'trcl_star_abbrev']
+                                                  'trcl_plain12', 'trcl_13',
+                                                  'trcl_abbrev']
     ok = 0
     for _ in range(n):
         mode = rng.choice(modes)
@@ -1340,22 +1399,12 @@ def sweep_decks(res, rng, n):
             res.sample({'deck': text}, limit=3)
             continue
         cls = None
-        if status == 'rejected':
-            if 'inline_trcl_not_normalised' in classes and (
-                    detail.startswith('TypeError')
-                    or detail.startswith('ValueError')
-                    or detail.startswith('IndexError')):
-                cls = 'inline_trcl_not_normalised'
-            elif 'implicit_surface_negative_only' in classes \
-                    and detail.startswith('KeyError'):
-                cls = 'implicit_surface_negative_only'
-        else:
-            for name in ('inline_trcl_not_normalised',
-                         'sq_under_transformation',
-                         'cone_sheet_axis_antialigned'):
-                if name in classes:
-                    cls = name
-                    break
+        if status == 'mismatch' and 'sq_under_transformation' in classes:
+            # narrow: the same deck with every SQ card rewritten as the
+            # equivalent GQ card must convert correctly
+            st2, _d2, _t2 = check_deck(sq_as_gq(deck), rng, 120)
+            if st2 == 'ok':
+                cls = 'sq_under_transformation'
         res.violation('impl-violation',
                       f'deck ({mode}) {status}: {detail}',
                       {'input': {'deck': text}, 'mode': mode,
